@@ -1324,7 +1324,14 @@ func (c *fnCtx) rangeStmt(v *ast.RangeStmt, k func() term) term {
 	}
 	key.rangeKey = true
 	key.pos = v.Pos()
-	x, t := c.expr(v.X, &pre)
+	sliced := c.rangeWindow(v, &pre)
+	var x string
+	var t *fnType
+	if sliced != nil {
+		x, t = sliced.name, sliced.typ
+	} else {
+		x, t = c.expr(v.X, &pre)
+	}
 	lim := c.rangeLimit(v)
 	switch {
 	case t.isNum():
@@ -1334,8 +1341,14 @@ func (c *fnCtx) rangeStmt(v *ast.RangeStmt, k func() term) term {
 		pre = append(pre, fnBind{pat: lim.name, e: x, isLet: true})
 	case t.k == "slice" && t.elem.k != "slice" || t.k == "string" && v.Value == nil:
 		xv := c.plainVar(v.X)
+		if sliced != nil {
+			xv = sliced
+		}
 		if xv == nil {
 			c.lostAt(v, "range over %s (must be a variable)", src(v.X))
+		}
+		if id, ok := v.Value.(*ast.Ident); ok && t.k == "slice" && t.elem.k == "map" && id.Obj != nil && c.mapMut[id.Obj] {
+			c.lostAt(v, "range variable %s holds the maps of %s and is changed (aliasing)", id.Name, xv.name)
 		}
 		ast.Inspect(v.Body, func(n ast.Node) bool {
 			if as, ok := n.(*ast.AssignStmt); ok {
